@@ -755,3 +755,32 @@ def rule_M10(F, R):
                 niter += 1
                 R.ok("M10", "working-set scan by iter()", where(b, i))
     R.floor("M10", "working-set scans outside the workingset module (by_index lookups + iter() walks)", n + niter, 1)
+
+
+def rule_M11(F, R):
+    R.begin("M11", "user-defined attributes read back as written: the stored key is `namespace.key` joined at one dot, and the reader splits it at the FIRST dot (docs/src/tasks.md). A split at the last dot returns (`github.issue`, `id`) for what was written as (`github`, `issue.id`)")
+    cands = [p for p, b in F.bodies.items() if p.startswith("task::task::") and b["kind"] == "Fn" and (b.get("sig_in") or []) == ["&str"] and re.sub(r"'\w+ ", "", b.get("sig_out") or "") == "(&str, &str)"]
+    if len(cands) != 1:
+        R.missing("M11", "the function &str -> (&str, &str) that splits a stored attribute key", "found %d" % len(cands))
+        return
+    b = F.bodies[cands[0]]
+    names = [x for (_i, t) in F.calls_in.get(cands[0], ()) for x in call_names(t)]
+    first = [x for x in names if re.search(r"<impl str>::(splitn|split_once|find|split)$", x)]
+    last = [x for x in names if re.search(r"<impl str>::(rsplitn|rsplit_once|rfind|rsplit|rsplit_terminator)$", x)]
+    if last:
+        R.violation("M11", cands[0], "uda-split-at-last-dot", "the attribute key is split with %s: a key part containing a dot moves into the namespace when read back" % last[0].split("::")[-1], where(b))
+    elif not first:
+        R.violation("M11", cands[0], "uda-split-unrecognised", "cannot recognise how the attribute key is split (expected splitn(2, '.') / split_once('.') / find('.'))", where(b))
+    else:
+        c = cfg_of(b)
+        fl = flow_of(b)
+        ok = True
+        for (i, t) in c.calls():
+            if any(x.endswith("<impl str>::splitn") for x in call_names(t)):
+                ks = const_strs(fl.slice_operand(t["args"][1]), F) if ("c" in t["args"][1] or "m" in t["args"][1]) else {str(t["args"][1].get("k", {}).get("repr", ""))}
+                if not any(str(k).strip().startswith("2") for k in ks):
+                    ok = False
+        if ok:
+            R.ok("M11", "attribute keys are split at the first dot (%s)" % first[0].split("::")[-1], where(b))
+        else:
+            R.violation("M11", cands[0], "uda-splitn-count", "splitn is not called with 2: a key part containing a dot is cut", where(b))
